@@ -173,7 +173,7 @@ pub fn bt_stub() -> std::backtrace::Backtrace {
 /// Records the block and pre-fills it with 0xAA, so that "the tail is zero"
 /// can only hold if the loader zeroes it.
 pub unsafe fn alloc_stub(l: std::alloc::Layout) -> *mut u8 {
-    let p = std::alloc::alloc_zeroed(l);
+    let p = crate::env::cbmc_malloc(l.size());
     core::ptr::write_bytes(p, 0xAA, l.size());
     // every Vec/String/Box allocation passes through here; the backing block of
     // `load_mem` is the over-aligned one (64 on the pinned tree; anything >= 16 is
